@@ -109,7 +109,7 @@ theorem work_kill {jo : JobObj} {kt : Time} {F0 : Int} {s : Sys} (h : KState jo 
     rw [hm] at this
     obtain ⟨r', hr', e⟩ := List.mem_map.mp this
     exact hgenlb r' hr' f (by rw [e]; exact hf)
-  obtain ⟨s', rj5, N, hsync, hm, hN, hk5, hs5, hfm⟩ := sync_kill sp jo kt h.spec hle hnf hsp_pods.nodup hdts (by
+  obtain ⟨s', rj5, N, hsync, hm, hN, hk5, hs5, hfm⟩ := sync_kill (hfn := killTasks_fn hsp_cache hsp_pods) sp jo kt h.spec hle hnf hsp_pods.nodup hdts (by
     intro rj5 hk5 hs5 hfm fin hfin
     have hlb := recompute_fin_lb F0 sp.clock sp.d rj5 (killTasks sp jo) kt hk5 hle h.lbKill (hrj5lb rj5 hfm) hTlb fin hfin
     have httl := h.ttl
